@@ -34,6 +34,19 @@ fn main() {
     } else { vec![] };
     let mut log = std::fs::OpenOptions::new().create(true).append(true).open(state.join("log.ndjson")).unwrap();
     writeln!(log, "{}", json!({"prog": prog, "argv": args[1..], "kind": kind, "outcome": outcome, "path_listing": listing})).unwrap();
+    // like the real tools: `docker rmi --force` of an image that was never built fails ("No such
+    // image"), while `docker rm --force` / `docker volume remove --force` of something missing succeed
+    let built = state.join("image-built");
+    if kind == "pack-build" && outcome == "ok" {
+        let _ = std::fs::write(&built, "x");
+    }
+    if kind == "rmi" {
+        if !built.exists() {
+            eprintln!("Error response from daemon: No such image");
+            std::process::exit(1);
+        }
+        let _ = std::fs::remove_file(&built);
+    }
     if outcome == "fail" {
         eprintln!("stand-in {prog}: scripted failure of {kind}");
         std::process::exit(1);
